@@ -343,6 +343,7 @@ bool Xml::Private::parse(const char* data, Element& element)
     return false;
   if(token.type != Token::startTagBeginType)
     return syntaxError(token.pos, "Expected '<'"), false;
+  element.clear(); // attributes and content are appended to
   return parseElement(element);
 }
 
